@@ -8,6 +8,7 @@
 import Proofs.Frame
 import Proofs.FlatComplete
 import Proofs.Kept
+import Proofs.RegFrame
 
 namespace Measured
 
@@ -56,6 +57,13 @@ alias C08.no_query_changes_the_declarations := queries_frame
 /-! ## C09 — connected to SI -/
 
 alias C09.connected_is_found := findPath_connected
+
+/-! ## C19 — the name registries in histories with queries -/
+
+/-- no conversion touches a name registry or an existing unit's names -/
+alias C19.conversion_touches_no_registry := rframed_convert
+/-- the registries stay faithful through every history of queries, unit operations and declarations -/
+alias C19.registries_faithful_after_every_query_history := queries_faithful
 
 /-! ## C11 — prefixes in conversions -/
 
